@@ -1,4 +1,118 @@
+import IpcHub.Drv.Util
+import IpcHub.Model.TsInst
+import IpcHub.Spec.TsOracle
 namespace IpcHub.Drv.C09
-/-- placeholder: no model built for this property yet -/
-def handle (_ : List String) : String := "bad-op"
+open IpcHub.Ts IpcHub.Drv
+
+def cfg : Cfg := genCfg
+
+def kvOf (pre : String) (toks : List String) : Option String :=
+  (toks.find? (·.startsWith pre)).map (fun (t : String) => (t.drop pre.length).toString)
+
+def parseAsc (s : String) : Option (Option Asc) :=
+  if s = "none" then some none else
+  match s.splitOn "," with
+  | [a, b, c, d, e] =>
+    match a.toNat?, b.toNat?, c.toInt?, d.toNat?, e.toNat? with
+    | some a, some b, some c, some d, some e =>
+      some (some { objectType := a, samplingIndex := b, extSampleRate := c, extSamplingIndex := d, channelConfig := e })
+    | _, _, _, _, _ => none
+  | _ => none
+
+/-- `v:<dtsNs>:<ptsNs>:<hex>` | `a:<ptsNs>:<hex>` | `o:<hex>` -/
+def parseAv (s : String) : Option AvFrame :=
+  match s.splitOn ":" with
+  | ["v", d, p, h] =>
+    match d.toInt?, p.toInt?, hexToBytes h with
+    | some d, some p, some b => some { media := .video, dtsNs := d, ptsNs := p, payload := b }
+    | _, _, _ => none
+  | ["a", p, h] =>
+    match p.toInt?, hexToBytes h with
+    | some p, some b => some { media := .audio, dtsNs := p, ptsNs := p, payload := b }
+    | _, _ => none
+  | ["o", h] => (hexToBytes h).map fun b => { media := .other, dtsNs := 0, ptsNs := 0, payload := b }
+  | _ => none
+
+/-- `r:<pid>:<sid>:<dts>:<pts>:<key>:<hdr>:<payload>` -/
+def parseRaw (s : String) : Option Frame :=
+  match s.splitOn ":" with
+  | ["r", pid, sid, d, p, k, h, pl] =>
+    match pid.toNat?, sid.toNat?, d.toInt?, p.toInt?, hexToBytes h, hexToBytes pl with
+    | some pid, some sid, some d, some p, some h, some pl =>
+      some { pid := pid, streamId := sid, dts := d, pts := p, header := h, payload := pl, key := k = "1" }
+    | _, _, _, _, _, _ => none
+  | _ => none
+
+/-- first index at which two byte lists differ (or the shorter length) -/
+def firstDiff : List UInt8 → List UInt8 → Nat → Option Nat
+  | [], [], _ => none
+  | a :: as, b :: bs, i => if a = b then firstDiff as bs (i + 1) else some i
+  | _, _, i => some i
+
+def cmpBytes (model impl : List UInt8) : String :=
+  if model == impl then "ok" else
+  match firstDiff model impl 0 with
+  | none => "ok"
+  | some i => s!"diff:{i}:{model.length}:{impl.length}"
+
+def ticksNat (ns : Int) : Nat := (Int.tdiv (ns * 90000) 1000000000).toNat
+
+def srcOf (f : AvFrame) : List IpcHub.TsSpec.Src :=
+  match f.media with
+  | .video => [.video f.payload (ticksNat f.dtsNs) (ticksNat f.ptsNs)]
+  | .audio => [.audio f.payload (ticksNat f.ptsNs)]
+  | .other => []
+
+/-- ops:
+  `av sps=<hex> pps=<hex> asc=<ot,si,esr,esi,cc|none> impl=<hex> <frame>…`
+      → `model=<ok|diff:…> panic=<0|1> spec=<ok|fail:…|skip>`
+  `raw impl=<hex> <rawframe>…` → `model=… spec=…`
+  `adts <profile> <srIdx> <chan> <size>` → `hdr=<hex>`
+  `avchdr sps=<hex> pps=<hex> <payload-hex>` → `hdr=<hex>|panic` -/
+def handle : List String → String
+  | "av" :: toks =>
+    match kvOf "sps=" toks >>= hexToBytes, kvOf "pps=" toks >>= hexToBytes,
+          kvOf "asc=" toks >>= parseAsc, kvOf "impl=" toks >>= hexToBytes with
+    | some sps, some pps, some asc, some impl =>
+      match (toks.filter (fun t => ¬ t.contains '=')).mapM parseAv with
+      | none => "bad-op"
+      | some frames =>
+        let m : Meta := { sps, pps, asc }
+        let (tfs, panicked) := muxFrames cfg m frames
+        let model := writeStream cfg tfs
+        let spec :=
+          match asc with
+          | some a =>
+            if panicked then "skip" else
+            let p : IpcHub.TsSpec.Params :=
+              { sps, pps, aot := a.objectType,
+                srIndex := (if a.extSampleRate > 0 then a.extSamplingIndex else a.samplingIndex),
+                chanCfg := a.channelConfig }
+            IpcHub.TsSpec.verdict (IpcHub.TsSpec.holds p (frames.flatMap srcOf) impl)
+          | none => "skip"
+        s!"model={cmpBytes model impl} panic={boolStr panicked} spec={spec}"
+    | _, _, _, _ => "bad-op"
+  | "raw" :: toks =>
+    match kvOf "impl=" toks >>= hexToBytes, (toks.filter (fun t => ¬ t.contains '=')).mapM parseRaw with
+    | some impl, some frames =>
+      let model := writeStream cfg frames
+      let srcs : List IpcHub.TsSpec.RawSrc := frames.map fun f =>
+        { pid := f.pid, sid := f.streamId, dts := f.dts.toNat, pts := f.pts.toNat, key := f.key,
+          data := if f.payload.isEmpty then [] else f.header ++ f.payload }
+      let pids := (frames.map (·.pid)).eraseDups
+      s!"model={cmpBytes model impl} spec={IpcHub.TsSpec.verdict (IpcHub.TsSpec.holdsRaw pids srcs impl)}"
+    | _, _ => "bad-op"
+  | ["adts", p, s, c, n] =>
+    match p.toNat?, s.toNat?, c.toNat?, n.toNat? with
+    | some p, some s, some c, some n => s!"hdr={bytesToHex (adtsHeader cfg p s c n)}"
+    | _, _, _, _ => "bad-op"
+  | ["avchdr", sps, pps, pl] =>
+    match hexToBytes sps, hexToBytes pps, hexToBytes pl with
+    | some sps, some pps, some pl =>
+      match avcHeader cfg sps pps pl with
+      | some h => s!"hdr={bytesToHex h}"
+      | none => "panic"
+    | _, _, _ => "bad-op"
+  | _ => "bad-op"
+
 end IpcHub.Drv.C09
